@@ -187,7 +187,7 @@ def step (s : St) (t : Nat) (e : Ev) : Option St :=
     if s.destroyed ∨ f.pend ≠ .none then none else
     some (s.pushF t { kind := .bulk, set := set, fq := fq })
   | .gen id =>
-    if f.kind = .bulk ∧ ¬ s.sub.any (·.1 == id) then
+    if f.kind = .bulk ∧ ¬ s.destroyed ∧ ¬ s.sub.any (·.1 == id) then
       some ({ s with sub := (id, f.set) :: s.sub }.setTop t { f with resv := f.resv ++ [(id, f.set)] })
     else none
   | .retBulk =>
@@ -317,7 +317,7 @@ def step (s : St) (t : Nat) (e : Ev) : Option St :=
         | _ => none
       | _ => none
     else
-      if (f.kind = .sched ∨ f.kind = .bulk) ∧ f.set = set ∧ f.pend = .none then
+      if (f.kind = .sched ∨ f.kind = .bulk) ∧ f.set = set ∧ set ≠ 0 ∧ f.pend = .none then
         if cancelled then
           if site = 2 then
             -- TaskSet::schedule returns without running or queuing the task
@@ -329,7 +329,7 @@ def step (s : St) (t : Nat) (e : Ev) : Option St :=
       else none
   | .tsInline set =>
     -- the set runs the reserved task on the caller without packaging it: only after a passed cancel check
-    if (f.kind = .sched ∨ f.kind = .bulk) ∧ f.set = set ∧ f.pend = .none ∧ f.guardOK ∧ ¬ f.fq then
+    if (f.kind = .sched ∨ f.kind = .bulk) ∧ f.set = set ∧ set ≠ 0 ∧ f.pend = .none ∧ f.guardOK ∧ ¬ f.fq then
       some (s.setTop t { f with pend := .inlTs, guardOK := f.kind = .bulk })
     else none
   | .tsCancel set => some { s with cancelled := if set ∈ s.cancelled then s.cancelled else set :: s.cancelled }
